@@ -269,7 +269,7 @@ def history_of(run):
                                                                              c["ans"][:120], c["inv"], c["res"]) for c in run["calls"]]
 
 
-def stage(run, C07, work, nrandom, open_findings=False, workers=12):
+def stage(run, C07, work, nrandom, open_findings=False, workers=12, all_b=False):
     """the explorer: every (A, B) pair x WAL mode x every lock release of A"""
     exe = vlib.build_harness("h_preempt")
     try:
@@ -315,7 +315,7 @@ def stage(run, C07, work, nrandom, open_findings=False, workers=12):
                     if name == "backup" and bn == "grow" and wal == 1 and not open_findings:
                         run.dist("preempt: backup x grow skipped (known finding C08-growth-during-main-copy)")
                         continue
-                    if tag_ and bn not in ("grow", "put_other", "get"):     # randomised instances: the B operations that get through
+                    if tag_ and not all_b and bn not in ("grow", "put_other", "get"):     # randomised instances: the B operations that get through
                         continue
                     jobs.append({"name": name + tag_, "scen": name, "bn": bn, "wal": wal, "setup": setup, "a": a, "b": b,
                                  "path": os.path.join(work, "pe%d.db" % len(jobs))})
